@@ -17,6 +17,10 @@ package main
 //                                               (skipped when it would have more cumulated work than the tip)
 //   e  <ver> ...                                Chains.Add of a child of the last header added by f/e (may reorganise)
 //   o  <ver> ...                                Chains.Add of an orphan (unknown parent);  oc: child of the last orphan
+//   xe f|s <k> <seed>                           before the export of this store, in the SAME temporary directory: an earlier
+//                                               ExportHeaders of another store of <k> (seeded) headers whose last step fails
+//                                               (f: the target directory does not exist) or succeeds (s).  The export of a
+//                                               store is a function of the store only; earlier exports must not show.
 // target ops, executed in order after database.ExportHeaders of the source:
 //   kset r c v | kdelcol r c | kaddcol r v | kallcols n | kdelrow r | kduprow r | kaddrow v,v,.. | ktrunc n |
 //   knohdr | kempty | knofile | kgarbage | kfix          edit the CSV records (r = data row, 0-based; ~ = empty, ^ = space)
@@ -144,7 +148,7 @@ func c17Ops(line string) []string {
 func c17IsSrcOp(op string) bool {
 	w := strings.Fields(op)
 	switch w[0] {
-	case "a", "d", "f", "e", "o", "oc", "z":
+	case "a", "d", "f", "e", "o", "oc", "z", "xe":
 		return true
 	}
 	return false
@@ -201,6 +205,13 @@ func (h *c17H) buildSource(ops []string) (*c17Src, error) {
 	h.nsrc++
 	dir := filepath.Join(h.root, "src")
 	_ = os.RemoveAll(dir)
+	// every source starts with an empty temporary directory (cases are self-contained); what the
+	// exports of THIS source leave there is part of the case (xe operations)
+	if ents, err := os.ReadDir(os.TempDir()); err == nil && strings.HasPrefix(os.TempDir(), h.root) {
+		for _, e := range ents {
+			_ = os.RemoveAll(filepath.Join(os.TempDir(), e.Name()))
+		}
+	}
 	s, err := NewStack(StackOpts{Dir: dir})
 	if err != nil {
 		return nil, err
@@ -228,6 +239,7 @@ func (h *c17H) buildSource(ops []string) (*c17Src, error) {
 	}
 	var lastFork, lastOrphan, direct *domains.BlockHeader
 	var pending []domains.BlockHeader
+	var earlier []c17Earlier
 	shuffle := int64(0)
 	flush := func() error {
 		if shuffle != 0 {
@@ -251,6 +263,14 @@ func (h *c17H) buildSource(ops []string) (*c17Src, error) {
 				s.Close()
 				return nil, err
 			}
+		}
+		if kind == "xe" {
+			if len(args) == 3 {
+				k, _ := strconv.Atoi(args[1])
+				seed, _ := strconv.ParseInt(args[2], 10, 64)
+				earlier = append(earlier, c17Earlier{fail: args[0] == "f", k: k, seed: seed})
+			}
+			continue
 		}
 		if kind == "z" {
 			if len(args) == 1 {
@@ -354,6 +374,11 @@ func (h *c17H) buildSource(ops []string) (*c17Src, error) {
 	dbc := *s.Cfg.Db
 	cfg.Db = &dbc
 	s.Close()
+	for _, e := range earlier {
+		if err := h.earlierExport(e); err != nil {
+			return nil, err
+		}
+	}
 	src := &c17Src{key: key, rows: rows, db: s.DBPath}
 	gz := filepath.Join(h.root, "export.csv.gz")
 	_ = os.Remove(gz)
@@ -376,6 +401,70 @@ func (h *c17H) buildSource(ops []string) (*c17Src, error) {
 	}
 	h.src = src
 	return src, nil
+}
+
+type c17Earlier struct {
+	fail bool
+	k    int
+	seed int64
+}
+
+// earlierExport builds another store of e.k seeded headers and runs ExportHeaders on it in the same
+// temporary directory; with e.fail the target directory does not exist, so the export fails at its
+// last step (after the temporary CSV was written).
+func (h *c17H) earlierExport(e c17Earlier) error {
+	dir := filepath.Join(h.root, "aux")
+	_ = os.RemoveAll(dir)
+	s, err := NewStack(StackOpts{Dir: dir})
+	if err != nil {
+		return err
+	}
+	rng := rand.New(rand.NewSource(e.seed))
+	hasher := service.DefaultBlockHasher()
+	var ht int32
+	if err := s.DB.Get(&ht, "SELECT max(height) FROM headers WHERE header_state = 'LONGEST_CHAIN'"); err != nil {
+		s.Close()
+		return err
+	}
+	tip, err := s.Repo.Headers.GetHeaderByHeight(ht)
+	if err != nil {
+		s.Close()
+		return err
+	}
+	for i := 0; i < e.k && i < 5000; i++ {
+		var m chainhash.Hash
+		rng.Read(m[:])
+		bs := domains.BlockHeaderSource{Version: int32(rng.Uint32()), PrevBlock: tip.Hash, MerkleRoot: m,
+			Timestamp: time.Unix(int64(rng.Uint32()), 0), Bits: 0x1d00ffff, Nonce: rng.Uint32()}
+		hash := hasher.BlockHash(&bs)
+		nh := domains.CreateHeader(&hash, &bs, tip)
+		if err := s.Repo.Headers.AddHeaderToDatabase(nh); err != nil {
+			s.Close()
+			return err
+		}
+		tip = &nh
+	}
+	cfg := *s.Cfg
+	dbc := *s.Cfg.Db
+	cfg.Db = &dbc
+	s.Close()
+	cfg.Db.PreparedDbFilePath = filepath.Join(h.root, "aux-export.csv.gz")
+	if e.fail {
+		cfg.Db.PreparedDbFilePath = filepath.Join(h.root, "no-such-directory", "aux-export.csv.gz")
+	}
+	lg := zerolog.Nop()
+	err = c17Guard(func() error { return database.ExportHeaders(&cfg, &lg) })
+	switch {
+	case e.fail && err != nil:
+		h.c.Count("earlier-export:failed-at-last-step")
+	case e.fail:
+		h.c.Count("earlier-export:expected-failure-did-not-happen")
+	case err != nil:
+		h.c.Count("earlier-export:unexpected-error")
+	default:
+		h.c.Count("earlier-export:ok")
+	}
+	return nil
 }
 
 func c17ReadGz(path string) ([][]string, error) {
